@@ -13,10 +13,11 @@ import PyxModel.Load
   kwargs: continue` (an association with an empty key list is never related by `new`);
   the rollback of the source link when the target link refuses the pair.
 
-  Not modelled: reading an identifying attribute that is itself referential in its class
-  (`getattr` then walks the links recursively).  Where the code would do so the model stops
-  with the outcome `unmodelled`; the theorems carry the guard `NoChain`, and the harness
-  sends only chain-free schemas to this model.
+  Attribute reads (`getattr`) are modelled with the referential properties `formalize` installs:
+  a referential attribute is read from the first partner under the association formalised
+  last that links the instance, recursively (`readAttr`, fuel-indexed; running out of fuel —
+  more steps than there are (instance, attribute) pairs — is Python's RecursionError on a
+  cyclic chain).
 -/
 
 namespace Pyx.Load
@@ -25,6 +26,7 @@ inductive Outcome where
   | ok
   | relateError      -- RelateException
   | unknownLink      -- UnknownLinkException
+  | recursionError   -- RecursionError: an attribute read chased referential properties round a cycle
   | unmodelled
   deriving DecidableEq, Repr, Inhabited
 
@@ -81,11 +83,58 @@ def relate (m : Model) (k1 : String) (i1 : Nat) (k2 : String) (i2 : Nat) (rel ph
 /-- `dict(zip(target_keys, source_keys))`: the key map of the target link -/
 def revKeyMap (a : AssocStmt) : List (String × String) := dictOfPairs (a.tgtKeys.zip a.srcKeys)
 
-/-- `link.to_metaclass.query(kwargs)`: positions of the rows whose stored values equal the wanted ones -/
-def queryRows (rows : List Row) (kwargs : List (String × Val)) : List Nat :=
-  (enumFrom 0 rows).filterMap (fun p => if kwargs.all (fun kv => p.2.get kv.1 == kv.2) then some p.1 else none)
+/-- the chain of referential properties of attribute `x` of instance `(kind, i)`: the association formalised last
+    is asked first (the list is in REVERSE definition order); an association under which the instance has no partner
+    defers to the earlier ones; without any partner the read gives `None`; `rec` reads the partner's attribute -/
+def readChain (rec : String → Nat → String → Option Val) (kind : String) (i : Nat) (x : String) :
+    List (AssocStmt × Links) → Option Val
+  | [] => some .none
+  | (a, L) :: earlier =>
+    match (if a.srcKind = kind then (a.srcKeys.zip a.tgtKeys).lookup x else none) with
+    | none => readChain rec kind i x earlier
+    | some tkey =>
+      match (L.tgt i).head? with
+      | none => readChain rec kind i x earlier
+      | some j => rec a.tgtKind j tkey
 
-/-- `for other_inst in hits: relate(other_inst, inst, link.rel_id, link.phrase)` -/
+/-- `getattr(instance, x)`: a non-referential attribute is read from the instance's `__dict__`, a referential one
+    through its chain of properties; `none` = the recursion did not end (RecursionError) -/
+def readAttr (m : Model) : Nat → String → Nat → String → Option Val
+  | 0 => fun _ _ _ => none
+  | fuel + 1 => fun kind i x =>
+    if (referential (m.assocs.map (·.1)) kind).contains x then
+      readChain (readAttr m fuel) kind i x m.assocs.reverse
+    else some (((rowsOf m.classes kind)[i]?.getD []).get x)
+
+/-- more steps than there are (instance, attribute) pairs: a read that needs more goes round a cycle -/
+def fuelOf (m : Model) : Nat :=
+  (m.classes.map (fun c => (c.rows.length + 1) * (c.attrs.length + 1))).sum + 1
+
+/-- `WhereEqual.__call__` on one instance: `for name, value in items: if getattr(inst, name) != value: break` -/
+def rowMatches (m : Model) (fuel : Nat) (kind : String) (j : Nat) : List (String × Val) → Option Bool
+  | [] => some true
+  | (n, v) :: rest =>
+    match readAttr m fuel kind j n with
+    | none => none
+    | some r => if r == v then rowMatches m fuel kind j rest else some false
+
+/-- `for other_inst in to_metaclass.query(kwargs): relate(other_inst, inst, rel, phrase)` — the query is a
+    generator: the instances of the other class are tested one by one, in storage order, and every hit is related
+    before the next instance is tested -/
+def relateQuery (fuel : Nat) (kwargs : List (String × Val)) (okind kind : String) (i : Nat) (rel phrase : String) :
+    List Nat → Model → Model × Outcome
+  | [], m => (m, .ok)
+  | j :: js, m =>
+    match rowMatches m fuel okind j kwargs with
+    | none => (m, .recursionError)
+    | some false => relateQuery fuel kwargs okind kind i rel phrase js m
+    | some true =>
+      match relate m okind j kind i rel phrase with
+      | (m', .ok) => relateQuery fuel kwargs okind kind i rel phrase js m'
+      | r => r
+
+/-- `for other_inst in hits: relate(other_inst, inst, link.rel_id, link.phrase)` (used by the proofs: the loop of
+    `relateQuery` once the hits are known) -/
 def relateHits (okind : String) (kind : String) (i : Nat) (rel phrase : String) : List Nat → Model → Model × Outcome
   | [], m => (m, .ok)
   | j :: js, m =>
@@ -95,15 +144,14 @@ def relateHits (okind : String) (kind : String) (i : Nat) (rel phrase : String) 
 
 /-- one entry of `self.links.values()` in the batch relate of `MetaClass.new`:
     the map is key attribute of the *other* class ↦ attribute of the new instance's class -/
-def relateLink (refs : List (String × Val)) (all : List AssocStmt) (km : List (String × String))
+def relateLink (refs : List (String × Val)) (km : List (String × String))
     (okind kind : String) (i : Nat) (rel phrase : String) (m : Model) : Model × Outcome :=
   if !(km.all (fun p => (refs.map (·.1)).contains p.2)) then (m, .ok)       -- some key attribute was not given
   else if km.any (fun p => isNull ((refs.lookup p.2).getD .none)) then (m, .ok)   -- a null value refers to nothing
   else if km.isEmpty then (m, .ok)                                            -- `if not kwargs: continue`
-  else if km.any (fun p => (referential all okind).contains p.1) then (m, .unmodelled)
   else
     let kwargs := km.map (fun p => (p.1, (refs.lookup p.2).getD .none))
-    relateHits okind kind i rel phrase (queryRows (rowsOf m.classes okind) kwargs) m
+    relateQuery (fuelOf m) kwargs okind kind i rel phrase (List.range (rowsOf m.classes okind).length) m
 
 /-- the links of a class in `metaclass.links` order: per association, the source link (if the class is
     the referred one) before the target link (if it is the referring one) -/
@@ -112,12 +160,12 @@ def linksOfKind (all : List AssocStmt) (kind : String) : List (List (String × S
     (if a.tgtKind = kind then [(keyMap a, a.srcKind, a.rel, a.tgtPhrase)] else [])
     ++ (if a.srcKind = kind then [(revKeyMap a, a.tgtKind, a.rel, a.srcPhrase)] else []))
 
-def relateLinks (refs : List (String × Val)) (all : List AssocStmt) (kind : String) (i : Nat) :
+def relateLinks (refs : List (String × Val)) (kind : String) (i : Nat) :
     List (List (String × String) × String × String × String) → Model → Model × Outcome
   | [], m => (m, .ok)
   | (km, okind, rel, phrase) :: rest, m =>
-    match relateLink refs all km okind kind i rel phrase m with
-    | (m', .ok) => relateLinks refs all kind i rest m'
+    match relateLink refs km okind kind i rel phrase m with
+    | (m', .ok) => relateLinks refs kind i rest m'
     | r => r
 
 /-- `MetaClass.new(*args)` with one positional argument per attribute -/
@@ -133,7 +181,7 @@ def apiNew (m : Model) (kind : String) (args : List Val) : Model × Outcome :=
     let i := c.rows.length
     let m1 : Model := { m with classes := addRow m.classes kind stored }
     if refs.isEmpty then (m1, .ok)
-    else relateLinks refs all kind i (linksOfKind all kind) m1
+    else relateLinks refs kind i (linksOfKind all kind) m1
 
 /-- the empty metamodel with the schema of the statements (define_class, define_unique_identifier,
     define_association + formalize, in the loader's phase order) -/
@@ -153,30 +201,9 @@ def apiBuild (ss : List Stmt) (order : List (String × List Val)) : Model × Lis
 
 /-! ### clone -/
 
-/-- reading attribute `x` of instance `i` of class `kind` in a loaded metamodel through the chain of
-    referential properties: the association formalised last is asked first; an association under which the
-    instance has no partner defers to the earlier ones -/
-def readRef (m : Model) (kind : String) (i : Nat) (x : String) : List (AssocStmt × Links) → Option Val
-  | [] => some .none
-  | (a, L) :: earlier =>          -- the list is in REVERSE definition order
-    match (if a.srcKind = kind then (a.srcKeys.zip a.tgtKeys).lookup x else none) with
-    | none => readRef m kind i x earlier
-    | some tkey =>
-      match (L.tgt i).head? with
-      | none =>
-        -- `other_inst is None and alt_prop`: without an earlier property the read gives None
-        readRef m kind i x earlier
-      | some j =>
-        if (referential (m.assocs.map (·.1)) a.tgtKind).contains tkey then none      -- chained key: not modelled
-        else some (((rowsOf m.classes a.tgtKind)[j]?.getD []).get tkey)
-
-/-- `[getattr(instance, name) for name, _ in attributes]` on a loaded (stripped) instance -/
+/-- `[getattr(instance, name) for name, _ in attributes]` on a loaded instance -/
 def readAll (m : Model) (c : Cls) (i : Nat) : Option (List Val) :=
-  let refNames := referential (m.assocs.map (·.1)) c.kind
-  let stored := stripRow refNames (c.rows[i]?.getD [])
-  c.attrs.mapM (fun p =>
-    if refNames.contains p.1 then readRef m c.kind i p.1 m.assocs.reverse
-    else some (stored.get p.1))
+  c.attrs.mapM (fun p => readAttr m (fuelOf m) c.kind i p.1)
 
 def cloneRun (src : Model) : List (String × Nat) → Model → Model × List Outcome
   | [], m => (m, [])
@@ -185,7 +212,7 @@ def cloneRun (src : Model) : List (String × Nat) → Model → Model × List Ou
       | none => (m, Outcome.unmodelled)
       | some c =>
         match readAll src c i with
-        | none => (m, Outcome.unmodelled)
+        | none => (m, Outcome.recursionError)
         | some args => apiNew m k args
     let r' := cloneRun src rest r.1
     (r'.1, r.2 :: r'.2)
